@@ -287,11 +287,25 @@ func runCheck(spec *PropSpec, tier string, seed int, accept, verbose bool, overl
 				}
 			}
 		}
+		coverStatus := map[string]string{}
+		for _, v := range vs {
+			if v.Obl.Cover {
+				coverStatus[v.Obl.Name] = v.Status
+			}
+		}
 		for _, v := range vs {
 			if v.Obl.Cover {
 				fr.Covers++
 				if v.Status == "vacuous" {
-					fr.Vacuous = append(fr.Vacuous, v.Obl.Name)
+					// a point that is unreachable is fine; a point that becomes unreachable by assuming a
+					// contract (reachable before the call, not after) means the assumed contract is contradictory
+					if strings.HasSuffix(v.Obl.Name, "/after") {
+						if coverStatus[strings.TrimSuffix(v.Obl.Name, "/after")+"/before"] == "covered" {
+							fr.Vacuous = append(fr.Vacuous, v.Obl.Name)
+						}
+					} else if strings.HasSuffix(v.Obl.Name, "/cover/requires") {
+						fr.Vacuous = append(fr.Vacuous, v.Obl.Name)
+					}
 				}
 				continue
 			}
